@@ -2,7 +2,7 @@
    Only property theorems, each closed by quoting lemmas proved elsewhere, and Print Assumptions.
    Generated from Properties/bodies/C14.v.in by mkprop.py (shared preamble: hdr.txt, sec.txt). *)
 From Coq Require Import Arith NArith Bool List Lia.
-Require Import Canon SemTk CountTk TableProto BddBase BddIte BddCR BddSat BddCof BddCof2 BddCtor BddEval BddPaths BddPathsCount BddReach BddExport BddDot BddMinimal BddTerm Glue Machine Reachable OpSpecs.
+Require Import Canon SemTk CountTk TableProto BddBase BddIte BddCR BddSat BddCof BddCof2 BddCtor BddEval BddPaths BddPathsCount BddReach BddExport BddDot BddMinimal BddTerm BddTerm2 Glue Machine Reachable OpSpecs FuelMono FuelMono2.
 Import ListNotations.
 Local Open Scope N_scope.
 
@@ -38,7 +38,17 @@ Section C14.
       (forall vs e0, NoDup vs -> (forall p, In p ps -> NoDup (map fst p) /\ forall y, In y p -> In (fst y) vs) ->
          CountTk.cnt vs F e0 = sumn (map (fun p => Nat.pow 2 (length vs - length p)) ps)).
   Proof. exact (paths_step_spec nhash khash bmask cmask0 smask0 capacity cap_ok mr f rf F fuel mr' x). Qed.
+  (* one_sat and the paths iterator always return (fuel above the height, resp. above the tree size of the diagram: the
+     iterator's own running time), leaving the state unchanged *)
+  Theorem C14_one_sat_returns mr f rf : reachable mr -> liveh mr f rf ->
+    exists bound, forall fuel, (bound <= fuel)%nat -> exists p, mstep fuel mr (HOneSat f) = Some (mr, OPath p).
+  Proof. exact (onesat_step_returns nhash khash bmask cmask0 smask0 capacity cap_ok mr f rf). Qed.
+  Theorem C14_paths_returns mr f rf : reachable mr -> liveh mr f rf ->
+    exists bound, forall fuel, (bound <= fuel)%nat -> exists ps, mstep fuel mr (HPaths f) = Some (mr, OPaths ps).
+  Proof. exact (paths_step_returns nhash khash bmask cmask0 smask0 capacity cap_ok mr f rf). Qed.
 End C14.
 
 Print Assumptions C14_one_sat.
 Print Assumptions C14_paths.
+Print Assumptions C14_one_sat_returns.
+Print Assumptions C14_paths_returns.
